@@ -264,11 +264,16 @@ func (h *hist) updateByIndex(pos []int, data [][]byte) {
 
 // reopen opens a second tree object from the store and compares root, size and append path with the live object.
 func (h *hist) reopen() *rmt.RegularMerkleTree {
-	if len(h.list) == 0 {
-		return nil
-	}
 	var t2 *rmt.RegularMerkleTree
 	var err error
+	if len(h.list) == 0 {
+		// refused on the unchanged tree; if a tree object is handed out it must be the empty tree (see reloadChecked)
+		must(h.f, "NewRegularMerkleTreeWithPastData", h.ctx, func() { t2, err = rmt.NewRegularMerkleTreeWithPastData(h.db) })
+		if err == nil && (!bytes.Equal(t2.Root(), h.modelRoot()) || t2.Size() != 0) {
+			h.f.Fatalf("reload of a never-written tree succeeded with root %x size %d, model root of the empty list %x\n%s", t2.Root(), t2.Size(), h.modelRoot(), h.ctx())
+		}
+		return nil
+	}
 	must(h.f, "NewRegularMerkleTreeWithPastData", h.ctx, func() { t2, err = rmt.NewRegularMerkleTreeWithPastData(h.db) })
 	if err != nil {
 		h.f.Fatalf("reload at size %d: %v\n%s", len(h.list), err, h.ctx())
